@@ -1,6 +1,9 @@
 import Gzx.Util
 import Gzx.Model.BitSource
 import Gzx.Model.OneDPost
+import Gzx.Driver.C01
+import Gzx.Driver.C02
+import Gzx.Driver.C08
 namespace Gzx.Driver.C06
 open Gzx Gzx.BitSource Gzx.OneDPost
 
@@ -50,6 +53,15 @@ def handle : List String → String
     match parseHex? hex with
     | some s => showBytesRes (c93Post s)
     | none => "bad-op"
+  -- the decoder models whose totality Properties/C06.lean proves, on the C06 input streams:
+  -- `qr parse|decode|cw …` = QRDec.parse / decode (Driver.C01), `dm dec …` = DMHighLevel.decodeFull (Driver.C02),
+  -- `dmx dread|dextract|dblocks …` = DMDec.newBitMatrixParser / readCodewords / getDataBlocks (Driver.C08)
+  | "qr" :: rest => Gzx.Driver.C01.handle rest
+  | "dm" :: rest => Gzx.Driver.C02.handle rest
+  | "dmx" :: rest => Gzx.Driver.C08.handle rest
+  -- `Decoder.Decode` on a w x h matrix: NewBitMatrixParser (repaired, 3d2539e) rejects non-square matrices
+  | ["qrd", w, h, bits, hint] =>
+    if w ≠ h then "ERR:format" else Gzx.Driver.C01.handle ["decode", h, bits, hint]
   | _ => "bad-op"
 
 end Gzx.Driver.C06
